@@ -36,7 +36,7 @@ pub struct MemCase {
 
 const SPAN_LIMIT: i64 = 1 << 20;
 
-fn run_history<C: CellType>(c: &MemCase) -> Result<Info, (String, String)> {
+pub fn run_history<C: CellType>(c: &MemCase) -> Result<Info, (String, String)> {
     let fail = |msg: String| Err(("mismatch".to_string(), msg));
     galloc::arm(c.placement as usize);
     let mut m = Memory::<C>::new();
@@ -275,6 +275,14 @@ impl Property for C09 {
             }
         }
         c
+    }
+    fn fuzz_target(&self) -> Option<&'static str> {
+        Some("mem_api")
+    }
+    fn decode_fuzz(&self, bytes: &[u8]) -> Option<MemCase> {
+        let mut c = crate::fuzzdec::mem_case(&mut arbitrary::Unstructured::new(bytes)).ok()?;
+        c.placement = 3;
+        Some(c)
     }
     fn floors(&self, tier: Tier) -> Vec<(&'static str, u64)> {
         let q = if tier == Tier::Quick { 1 } else { 25 };
